@@ -22,6 +22,16 @@ struct async_worker_s {
     platform_event_t stop_event;
 };
 
+#ifdef NEOLITH_VERIF
+/* verification hook H4: optional yield points for schedule control.
+ * point 1 = worker thread entered, before it stores RUNNING
+ * point 2 = worker procedure returned, before STOPPED is stored */
+void (*verif_async_yield)(int point, void* worker) = NULL;
+#define VERIF_ASYNC_YIELD(point, w) do { if (verif_async_yield) verif_async_yield((point), (w)); } while (0)
+#else
+#define VERIF_ASYNC_YIELD(point, w) ((void)0)
+#endif
+
 /* Thread-local storage for current worker */
 static __thread async_worker_t* tls_current_worker = NULL;
 
@@ -30,10 +40,12 @@ static void* worker_thread_proc(void* param) {
     async_worker_t* worker = (async_worker_t*)param;
     tls_current_worker = worker;
     
+    VERIF_ASYNC_YIELD(1, worker);
     worker->state = ASYNC_WORKER_RUNNING;
     
     void* result = worker->proc(worker->context);
     
+    VERIF_ASYNC_YIELD(2, worker);
     worker->state = ASYNC_WORKER_STOPPED;
     tls_current_worker = NULL;
     
